@@ -64,9 +64,62 @@ class ApiSocket:
         return True
 
 
+class NativeSubs:
+    """A real set holding one recording subscriber (native replay)."""
+
+    def __init__(self, world, name):
+        self.world = world
+        self.name = name
+        self.calls = []
+
+        async def recorder(*a, **k):
+            self.calls.append((a, k))
+            world.order.append((name, a, k))
+        self.recorder = recorder
+        self.set = {recorder}
+
+
+class NativeWorld:
+    def __init__(self):
+        self.order = []
+        self.sets = {}
+
+    def subs(self, name):
+        ns = NativeSubs(self, name)
+        self.sets[name] = ns
+        return ns
+
+
+class NativeApiSocket:
+    def __init__(self, h, send_may_fail=False):
+        self.is_connected = h.bool("sock_is_connected")
+        self.host = "host"
+        self.sent = []
+
+    async def send(self, message=None, retry_policy=None):
+        self.sent.append((message, retry_policy))
+
+
 def api_world(h, **kw):
+    if not h.symbolic:
+        return NativeWorld(), NativeApiSocket(h, **kw)
     w = World(h.it)
     return w, ApiSocket(w, h, **kw)
+
+
+def subscriber_set(h, world, name):
+    """(object to install as the set attribute, handle used by `notified`)."""
+    if h.symbolic:
+        s = AbsSet(world, name)
+        return s, s
+    ns = world.subs(name)
+    return ns.set, ns
+
+
+def union_handle(h, world, a, b):
+    if h.symbolic:
+        return AbsSet(world, "union", parts=[a, b])
+    return ("union", a, b)
 
 
 def policy_is(h, policy, name):
@@ -91,12 +144,33 @@ def encode_payload(h, registry_mod, message):
 
 
 def notified(h, world, aset, args):
-    """True iff the effect log contains 'every member of aset was called with args'."""
+    """Truth of: every member of the subscriber set `aset` was called exactly once with `args`
+    (symbolic: the effect log contains the for-all-members event of that set with those arguments)."""
+    if not h.symbolic:
+        parts = [aset] if not isinstance(aset, tuple) else list(aset[1:])
+        return all(len(p.calls) == 1 and list(p.calls[0][0]) == list(args) and not p.calls[0][1] for p in parts)
+    alts = []
     for e in world.events("for-all-members"):
-        if e[1] == aset.descriptor() and list(e[2][0]) == list(args) and not e[2][1]:
-            return True
-    return False
+        if e[1] == aset.descriptor() and len(e[2][0]) == len(args) and not e[2][1]:
+            alts.append(And(*[sym.eq(a, b) for a, b in zip(e[2][0], args)]))
+    return Or(*alts)
 
 
 def notifications(world):
+    """All notification rounds so far (symbolic: for-all-members events; native: recorded calls)."""
+    if isinstance(world, NativeWorld):
+        return list(world.order)
     return world.events("for-all-members")
+
+
+def notified_only(h, world, aset, args):
+    """`aset` was notified with args and no other subscriber set was."""
+    if not h.symbolic:
+        parts = [aset] if not isinstance(aset, tuple) else list(aset[1:])
+        names = {p.name for p in parts}
+        return notified(h, world, aset, args) and all(n in names for n, _, _ in world.order)
+    return And(len(notifications(world)) == 1, notified(h, world, aset, args))
+
+
+def no_notification(h, world):
+    return len(notifications(world)) == 0
